@@ -448,7 +448,7 @@ class Oscar(BaseStorer):
                         f_out.write(self.__event_footer(event, i))
                         continue
                     elif (
-                        i == 0
+                        format_oscar2013_extended.count("%") == 20
                         and len(particle_output[0]) > 20
                         and (
                             self.oscar_format_ == "Oscar2013Extended"
